@@ -165,12 +165,14 @@ Section Writer.
 Variable sniff : bytes -> bytes.
 (* time.Now() rendered by appendTime; the harness rewrites a generated Date value to this constant *)
 Variable now : bytes.
-(* the /repo fix for C28 is in force: a response to a request whose "Expect: 100-continue" was never answered
-   with "100 Continue" closes the connection (false = the code before that fix) *)
+(* the /repo fixes for C28 are in force (false = the code before them): a response to a request whose
+   "Expect: 100-continue" was never answered with "100 Continue" closes the connection, and so does a response
+   to a request whose body could not be drained without error *)
 Variable fix_expect : bool.
 
-(* req_body: (req.ContentLength <> 0, Body is an expectContinueReader, WroteContinue) *)
-Definition write_header (allowed : Z -> bool) (q : rq) (req_body : bool * bool * bool) (status : Z) (h : fields) (clen : Z)
+(* req_body: (req.ContentLength <> 0, Body is an expectContinueReader, WroteContinue,
+              draining the rest of the request body fails: corrupt chunked framing or the stream ends inside it) *)
+Definition write_header (allowed : Z -> bool) (q : rq) (req_body : bool * bool * bool * bool) (status : Z) (h : fields) (clen : Z)
            (close0 hdone : bool) (p : bytes) : hdec :=
   let is_head := q_head q in
   let set_cl := hdone && negb (status =? 304) && is_empty (get_first s_cl h) && (negb is_head || negb (is_empty p)) in
@@ -178,11 +180,13 @@ Definition write_header (allowed : Z -> bool) (q : rq) (req_body : bool * bool *
   let has_cl0 := negb (clen1 =? -1) in
   let conn1 := fst (wh_conn q h has_cl0 close0) in
   let close3a := snd (wh_conn q h has_cl0 close0) in
-  let rb_nonzero := fst (fst req_body) in
-  let is_expecter := snd (fst req_body) in
-  let wrote_continue := snd req_body in
+  let rb_nonzero := fst (fst (fst req_body)) in
+  let is_expecter := snd (fst (fst req_body)) in
+  let wrote_continue := snd (fst req_body) in
+  let body_err := snd req_body in
   let drain := rb_nonzero && negb close3a && (negb is_expecter || wrote_continue) in
-  let close3 := close3a || (fix_expect && rb_nonzero && is_expecter && negb wrote_continue) in
+  let close3 := close3a || (fix_expect && rb_nonzero && is_expecter && negb wrote_continue)
+                        || (fix_expect && drain && body_err) in
   let h1 := if status =? 304 then del_key s_te (del_key s_cl (del_key s_ct h)) else h in
   let ctype := if status =? 304 then [] else if has_key s_ct h then [] else sniff p in
   let te := get_first s_te h1 in
@@ -264,7 +268,7 @@ Definition body_bytes (is_head chunking : bool) (ws : list bytes) : bytes :=
      (bfe_util.CopyWithoutBuffer); otherwise io.CopyBuffer through the 512-byte bufio.
    err: the body reader (or the backend connection) failed after delivering the pieces.
    Result: bytes written to the client, connection closed after the reply, drain attempted. *)
-Definition respond_gen (allowed : Z -> bool) (q : rq) (req_body : bool * bool * bool) (flush_first : bool)
+Definition respond_gen (allowed : Z -> bool) (q : rq) (req_body : bool * bool * bool * bool) (flush_first : bool)
            (status : Z) (h : fields) (pieces : list bytes) (err : bool) : bytes * bool * bool :=
   (* WriteHeader: the clone in cw.header keeps an invalid Content-Length *)
   let clen := match get_first s_cl h with
